@@ -44,7 +44,7 @@ def generate(rng, tier) -> dict:
         nfiles = rng.choice([1, 1, 2])
         mx = 12 if tier == "quick" else 24
         counts = [rng.randint(1, max(1, mx // nfiles)) for _ in range(nfiles)]
-        big = rng.random() < (0.04 if tier == "quick" else 0.08)
+        big = rng.random() < (0.07 if tier == "quick" else 0.1)
         if big:  # writes of several kB (page-sized thresholds); offsets/truncations are sampled there
             nchans = rng.choice([c for c in (64, 128) if (c * nbits) % 8 == 0])
             counts = [rng.randint(100, 400)]
@@ -86,6 +86,8 @@ def generate(rng, tier) -> dict:
     gulp = max(1, rng.choice([1, 2, 3, rng.randint(1, max(1, ns)), ns, ns + 2]))
     if spec.get("big"):
         gulp = max(min(20, ns), rng.choice([64, 100, rng.randint(min(20, ns), ns), ns]))
+        if spec.get("mode") == "blank128":
+            gulp = rng.choice([64, 128, 64, 32 if nchans >= 128 else 64])  # whole blocks inside a zero stretch
     return {"files": spec, "name": name, "params": params, "start": start, "nsamps": nsamps, "gulp": gulp}
 
 
